@@ -8,7 +8,7 @@ REPO ?= /repo
 B := build
 SHELL := /bin/bash
 
-INC := -I. -isystem $(REPO)/include -isystem /usr/include/eigen3
+INC = -I. $(if $(filter cov,$(1)),-I$(REPO)/include,-isystem $(REPO)/include) -isystem /usr/include/eigen3
 COMMON := -std=c++17 -g1 -ffp-contract=off -fno-fast-math -DSPLINETRAJECTORY_VERIF -Wall -Wno-unused-parameter -Wno-unused-variable -Wno-unused-but-set-variable -Wno-unused-local-typedefs
 
 CXX_plain := g++
@@ -27,10 +27,14 @@ UNIT_SRCS := $(sort $(wildcard units/*.cpp))
 # the race-detector variant only needs the units that host concurrent workloads
 UNIT_SRCS_tsan := $(sort $(wildcard units/conc_*.cpp))
 
-VARIANTS := plain asan tsan
+CXX_cov := clang++
+FLAGS_cov := -O0 -fprofile-instr-generate -fcoverage-mapping
+LD_cov := -fprofile-instr-generate
+
+VARIANTS := plain asan tsan cov
 
 .PHONY: all FORCE clean $(VARIANTS)
-all: $(VARIANTS)
+all: plain asan tsan
 $(VARIANTS): %: $(B)/stsim_%
 
 $(B)/repo.stamp: FORCE
@@ -47,15 +51,15 @@ $(B)/stsim_$(1): $$(OBJS_$(1))
 
 $(B)/$(1)/units/%.o: units/%.cpp $(B)/repo.stamp
 	@mkdir -p $$(dir $$@)
-	@echo "  CXX[$(1)] $$<"; $$(CXX_$(1)) $(COMMON) $$(FLAGS_$(1)) $(INC) -MMD -MP -c $$< -o $$@
+	@echo "  CXX[$(1)] $$<"; $$(CXX_$(1)) $(COMMON) $$(FLAGS_$(1)) $$(call INC,$(1)) -MMD -MP -c $$< -o $$@
 
 $(B)/$(1)/sim/%.o: sim/%.cpp
 	@mkdir -p $$(dir $$@)
-	@echo "  CXX[$(1)] $$<"; $$(CXX_$(1)) $(COMMON) $$(if $$(filter sched wrap_mutex san,$$*),$$(filter-out -fsanitize=thread,$$(FLAGS_$(1))),$$(FLAGS_$(1))) $(INC) -MMD -MP -c $$< -o $$@
+	@echo "  CXX[$(1)] $$<"; $$(CXX_$(1)) $(COMMON) $$(if $$(filter sched wrap_mutex san,$$*),$$(filter-out -fsanitize=thread,$$(FLAGS_$(1))),$$(FLAGS_$(1))) $$(call INC,$(1)) -MMD -MP -c $$< -o $$@
 
 $(B)/$(1)/props/%.o: props/%.cpp
 	@mkdir -p $$(dir $$@)
-	@echo "  CXX[$(1)] $$<"; $$(CXX_$(1)) $(COMMON) $$(FLAGS_$(1)) $(INC) -MMD -MP -c $$< -o $$@
+	@echo "  CXX[$(1)] $$<"; $$(CXX_$(1)) $(COMMON) $$(FLAGS_$(1)) $$(call INC,$(1)) -MMD -MP -c $$< -o $$@
 endef
 $(foreach v,$(VARIANTS),$(eval $(call VARIANT_RULES,$(v))))
 
